@@ -128,4 +128,15 @@ PROPS = {
         ],
         assumptions=["CMaps with one code width (the implementation reads the width of the first codespace range only)"],
     ),
+    "C06": dict(
+        gen=[],
+        trusted=[
+            "modelled after the code: core.Lexer.NextToken with skipWhitespace, readComment, readString (escapes, octal codes, line continuations, nesting), readHexString, readName (#xx), readNumber, readKeyword; core.Parser.nextToken (comments dropped), ParseObject, parseNumber with the two-token lookahead for n g R, parseArray, parseDict; contentstream.Parser.Parse, parseNext, keywordAt, parseOperator, parseOperand, parseNumber, parseString, parseHexString, parseName, parseArray, parseDict, skipWhitespace with comments",
+            "strconv.ParseInt(s,10,64) is the C17 atoi model; strconv.ParseFloat is an oracle restricted to sign, digits and one decimal point: reals are kept as exact decimal rationals (mantissa, scale) and the implementation's float64 is mapped back with strconv.FormatFloat, so only literals of at most 15 significant digits are generated; float rounding is outside the theorems",
+            "a lexer failure leaves the object parser with a stale lookahead token (its nextToken error is ignored): the model answers 'outside the model' whenever the parser would look at the failing token; such inputs are not generated for this property (C02 owns them)",
+            "PROVED for the object parser: the lexical round trips and the token-level tree round trip. NOT proved for the content stream parser beyond the shared string reader and its name reader: its structural behaviour (operand stack, grouping, arrays, dictionaries, hex strings with blanks between the two digits of a byte) is tied by the differential run and checked by predicates; the statement 'both parsers assign the same value to every operand both accept' is shown on the printed language only (parsers-agree predicate + shared readers), not for all byte strings",
+            "NOT modelled: indirect objects, streams and inline images (BI/ID/EI), ParseIndirectObject, xref",
+        ],
+        assumptions=["integers within int64; reals without exponent"],
+    ),
 }
